@@ -990,15 +990,10 @@ bool Builder::FinishCommand(BuildResult::CommandCompleted& result,
   if (!rspfile.empty() && !g_keep_rsp)
     disk_interface_->RemoveFile(rspfile);
 
-  if (scan_.build_log()) {
-    if (!scan_.build_log()->RecordCommand(
-            edge, static_cast<int>(start_time_millis),
-            static_cast<int>(end_time_millis), record_mtime)) {
-      *err = string("Error writing to build log: ") + strerror(errno);
-      return false;
-    }
-  }
-
+  // Record the deps before the build log entry: once the log entry is durable
+  // the next run trusts this run, so everything else it learned must be on
+  // disk by then (a restat command that left its output untouched keeps the
+  // old deps record valid, and a crash in between would lose the new deps).
   if (!deps_type.empty() && !config_.dry_run) {
     assert(!edge->outputs_.empty() && "should have been rejected by parser");
     for (std::vector<Node*>::const_iterator o = edge->outputs_.begin();
@@ -1012,6 +1007,15 @@ bool Builder::FinishCommand(BuildResult::CommandCompleted& result,
       }
     }
   }
+  if (scan_.build_log()) {
+    if (!scan_.build_log()->RecordCommand(
+            edge, static_cast<int>(start_time_millis),
+            static_cast<int>(end_time_millis), record_mtime)) {
+      *err = string("Error writing to build log: ") + strerror(errno);
+      return false;
+    }
+  }
+
   return true;
 }
 
